@@ -49,7 +49,7 @@ class Ctx(object):
         self._nontrivial = set()
         self._samples_pool = []
         self.known = load_known_findings().get(pid, [])
-        self.max_reports = 20
+        self.max_reports = int(os.environ.get("VERIF_MAXREPORT", "20"))
 
     # ---- counters -------------------------------------------------------
     def add(self, **kw):
